@@ -34,6 +34,7 @@ type gprod struct {
 	parts   map[int64]bool
 	wins    map[int64]*gwin
 	hist    []gbatch
+	txb     map[int64]int64 // bytes of the running transaction per partition
 }
 type gsess struct {
 	id, epoch int64
@@ -74,6 +75,7 @@ func (g *gstate) endTx(p *gprod, commit bool) {
 	p.parts = map[int64]bool{}
 	p.inTx = false
 	p.lastC = commit
+	p.txb = nil
 }
 
 func (g *gstate) start(p *gprod) {
@@ -147,6 +149,75 @@ func (g *gstate) goodProd(p *gprod, part int64) {
 	w.seen, w.epoch, w.next = true, p.epoch, seq+n
 	g.hwm[part] += n
 	p.hist = append(p.hist, gbatch{c, p.epoch, seq, n, nb, part, 1})
+	if p.txb == nil {
+		p.txb = map[int64]int64{}
+	}
+	p.txb[part] += nb
+}
+
+// a fetch at the (believed) end of some partitions with MinBytes > 0: it waits until MaxWait, or until a
+// transaction that times out meanwhile puts enough marker / released bytes on one of its partitions
+func (g *gstate) waitingFetch(c string, iso int64) {
+	r := g.r
+	var qs []int64
+	for q := int64(0); q < g.np; q++ {
+		if r.Chance(65) {
+			qs = append(qs, q)
+		}
+	}
+	if len(qs) == 0 {
+		qs = append(qs, r.Range(0, g.np-1))
+	}
+	var ps []string
+	for _, q := range qs {
+		ps = append(ps, fmt.Sprintf("%d:%d:%d", q, g.hwm[q], hx.Pick(r, []int64{1 << 20, 1 << 20, 200, 100})))
+	}
+	minb := hx.Pick(r, []int64{1, 50, 72, 73, 100, 150, 250})
+	wait := hx.Pick(r, []int64{10, 20, 50, 100, 150, 200})
+	newSess := r.Chance(25)
+	if newSess {
+		hx.Emit("fetch %s %d 1048576 0 0 %s - %d %d", c, iso, strings.Join(ps, ","), minb, wait)
+	} else {
+		hx.Emit("fetch %s %d 1048576 0 -1 %s - %d %d", c, iso, strings.Join(ps, ","), minb, wait)
+	}
+	// what the generator believes happens while it waits
+	deadline := g.now + wait
+	need := minb
+	woken := false
+	for !woken {
+		var next *gprod
+		for _, p := range g.prods {
+			if p.txn && p.inTx && p.start+p.timeout <= deadline && (next == nil || p.start+p.timeout < next.start+next.timeout) {
+				next = p
+			}
+		}
+		if next == nil {
+			break
+		}
+		g.now = next.start + next.timeout
+		for _, q := range qs {
+			if next.parts[q] {
+				need -= 72
+				if iso == 1 {
+					need -= next.txb[q]
+				}
+			}
+		}
+		next.epoch++
+		g.endTx(next, false)
+		woken = need <= 0
+	}
+	if !woken {
+		g.now = deadline
+	}
+	if newSess {
+		g.nsess += 2 // the handler ran its session part twice: one orphan session
+		s := &gsess{id: g.nsess, epoch: 1, iso: iso, c: c, parts: map[int64]int64{}}
+		for _, q := range qs {
+			s.parts[q] = g.hwm[q]
+		}
+		g.sess = append(g.sess, s)
+	}
 }
 
 func (g *gstate) someOffset(part int64) int64 {
@@ -216,10 +287,18 @@ func (g *gstate) fetch() {
 		}
 		return r2
 	}
+	if r.Chance(16) {
+		g.waitingFetch(c, iso)
+		return
+	}
+	wsuf := ""
+	if r.Chance(8) { // MinBytes on an arbitrary fetch: usually satisfied at once
+		wsuf = fmt.Sprintf(" %d %d", hx.Pick(r, []int64{1, 100, 400}), hx.Pick(r, []int64{0, 10, 50}))
+	}
 	k := r.Intn(100)
 	switch {
 	case k < 45 || (k >= 60 && len(g.sess) == 0): // sessionless
-		hx.Emit("fetch %s %d %d 0 -1 %s -", c, iso, maxb, reqParts(pickParts(), nil))
+		hx.Emit("fetch %s %d %d 0 -1 %s -%s", c, iso, maxb, reqParts(pickParts(), nil), wsuf)
 	case k < 60: // new session
 		g.nsess++
 		s := &gsess{id: g.nsess, epoch: 1, iso: iso, c: c, parts: map[int64]int64{}}
